@@ -47,6 +47,14 @@ Subset
                Fuel-bounded functions may not `raise`.
   slices     : only `a[:n]` on a 1-d array -> `zslice_to a n`.  A slice is a value (copy), numpy's is a view: a store into
                a name that is (flow-sensitively) bound to a slice is rejected; slices inside loops / joining ifs are rejected.
+  sets       : `set(a)` with `a` an int array (VZ) is a value of type SZ that can only be bound to a name and used as the right
+               operand of `k in s` / `k not in s` with an int k: `zmem k a` / `negb (zmem k a)` (PyPrim.v: `existsb (Z.eqb k) a`).
+               For membership a set of an int array IS its list of elements; nothing else (len, iteration, ==, return,
+               passing it to a call) is accepted on a set.
+  imports    : translate_module(.., imports={name: (python module, file)}): a function the module binds by a top-level
+               `from <python module> import name` (checked on the CURRENT text; no `as`, no other top-level binding of the name) is
+               read from `file` and translated into the same generated file as `src_<name>`; calls of it are then calls of a
+               translated function of the same module (e.g. umap.utils.norm used by umap/sparse.py).
   opaque     : `sigs[fn]['opaque'] = {helper: ([arg types], result type)}`: a call of `helper` is NOT translated; the
                generated definition gets one extra function parameter per helper it (or a callee) uses, after `N` [`E`],
                in the order of that dict: `src_sparse_sum N (arr_union : list Z -> list Z -> list Z) ind1 ...`.  Meaning:
@@ -70,6 +78,37 @@ Extensions for the kNN kernels of umap_.py (C01)
                constant, and `if <constant>:` statements keep only the live branch (the dead branch is not translated
                and may be outside the subset).  A fixed argument that is assigned anywhere is rejected.  The link theorem
                is then a statement about calls with these argument values only.
+Extensions for reprocess_row / reset_local_metrics (umap_.py, C18)
+  powers     : `pow(x, y)` / `np.power(x, y)` / `x ** y` with float scalars is `npow N x y` (as before); with x a 1-d float array
+               and y a scalar it is the elementwise `vmaps_r N (npow N) x y` (a fresh array).
+  defaults   : a trailing parameter with an int / float literal default stays an ordinary parameter of `src_<f>`; its default
+               is the generated definition `src_default_<f>_<arg>` (Z, or `(N : Num) : N` for a float literal).  A call
+               `f(a)` of a translated function with trailing arguments omitted passes these definitions (link theorems
+               about the caller mention `src_default_<f>_<arg>`, so they survive a change of the default's value).
+  slices     : `a[lo:hi]` (both bounds, no step; 1-d array) as a VALUE is `zslice a lo hi` (Python semantics: a negative
+               bound counts from the end, then both are clamped to [0, len]); it is accepted ONLY inside the right-hand side
+               of a slice store (below), where view and copy cannot be told apart.
+               `x[lo:hi] = E` (x a 1-d float array variable, E a 1-d float array expression) is
+               `let x := zset_slice x lo hi E`: the segment [lo, hi) of x replaced by E, E evaluated completely BEFORE the
+               store (numpy copies overlapping operands), allowed inside loops.  Meaning only when len(E) = the length of
+               the segment (otherwise numpy raises or broadcasts; `zset_slice` then leaves x unchanged: outside the
+               subset's meaning, link theorems carry the hypotheses that make the lengths equal).
+Extensions for submatrix (utils.py, C20)
+  prange     : `numba.prange(..)` is read as `range(..)`: the sequential meaning.  This is the meaning of the parallel loop
+               only when the iterations are independent (each iteration writes cells no other iteration reads or writes,
+               as in `submat[i, j] = dmat[i, indices_col[i, j]]`); numba's reduction rewriting of scalars accumulated in
+               a prange body changes the summation order and is NOT modelled -- link files that rely on a prange loop
+               must say in their header why the iterations are independent.
+  shape      : `a.shape` of a 2-d array (M / MZ) as a value is the pair (zlen a, length of row 0); it can only be the
+               right-hand side of a tuple assignment `r, c = a.shape` (a tuple value cannot be bound to one name) or be
+               indexed by a literal.
+  dtype      : `dtype=x.dtype` with x an array variable: float for V / M, int for VZ / MZ.
+  defaults+  : (general_sset_intersection, sparse.py, C18) with `sigs[fn]['defaults'] = True` every default value of the function
+               (float / int / bool literal; any other default expression is rejected) is ALSO emitted, after `src_f`, as the
+               generated definition `src_<f>_default_<arg>` (`(N : Num) : N` for a float literal, `: Z` for an int literal,
+               `: bool` for True / False), so that link theorems can be stated about the value the current source has
+               (`f(a, b)` in Python is `src_f a b src_f_default_c ..`).  Independent of the automatic `src_default_<f>_<arg>`
+               definitions above (int / float literals of trailing parameters only, used for calls that omit arguments).
   infinity   : `Num` has no infinity.  A module constant bound to `np.inf` (see module_consts) is translated as the extra
                argument `pinf : N` of every generated function that (transitively) reads it, placed right after `N`
                (and `E`; before opaque helpers).  The generated definition therefore describes the source on inputs where every float that
@@ -84,7 +123,8 @@ class Unsupported(Exception):
 
 
 F, I, B, V, M, VZ, MZ, U = "F", "I", "B", "V", "M", "VZ", "MZ", "U"
-COQTY = {F: "N", I: "Z", B: "bool", V: "list N", M: "list (list N)", VZ: "list Z", MZ: "list (list Z)", U: "unit"}
+SZ = "SZ"               # set(<int array>): a value that can only be bound to a name and tested with `in` / `not in`
+COQTY = {F: "N", I: "Z", B: "bool", V: "list N", M: "list (list N)", VZ: "list Z", MZ: "list (list Z)", U: "unit", SZ: "list Z"}
 ARRAYS = (V, M, VZ, MZ)
 PINF = ("pinf", F)      # consts value of a module constant bound to +infinity: becomes the extra argument `pinf`
 
@@ -303,6 +343,14 @@ class FnTranslator:
                 raise Unsupported("np.inf")
             if d in self.consts:
                 return self.const(d)
+            if n.attr == "shape":
+                # `a.shape` of a 2-d array as a VALUE: the pair (number of rows, length of row 0)
+                arr, t = self.expr(n.value, env)
+                if t == M:
+                    return "(zlen %s, zlen (mrow N %s 0))" % (arr, arr), (I, I)
+                if t == MZ:
+                    return "(zlen %s, zlen (imrow %s 0))" % (arr, arr), (I, I)
+                raise Unsupported("shape of a non-2-d array as a value")
             if n.attr == "size":
                 arr, t = self.expr(n.value, env)
                 if t in (M, MZ):
@@ -390,6 +438,13 @@ class FnTranslator:
         b, tb = self.expr(r, env)
         if ta == B and tb == B and isinstance(op, (ast.Eq, ast.NotEq)):
             return "(Bool.eqb %s %s)" % (a, b) if isinstance(op, ast.Eq) else "(xorb %s %s)" % (a, b)
+        if isinstance(op, (ast.In, ast.NotIn)):
+            # membership of an int in set(<int array>)
+            if ta != I or tb != SZ:
+                raise Unsupported("`in` other than <int> in set(<int array>)")
+            return "(zmem %s %s)" % (a, b) if isinstance(op, ast.In) else "(negb (zmem %s %s))" % (a, b)
+        if SZ in (ta, tb):
+            raise Unsupported("comparison of a set")
         if ta in ARRAYS or tb in ARRAYS:
             raise Unsupported("array comparison")
         t = self.join(ta, tb)
@@ -449,7 +504,9 @@ class FnTranslator:
             return "(ipow N %s %d)" % (self.coerce(a, ta, F), k), F
         b, tb = self.expr(rnode, env)
         if ta == V:
-            raise Unsupported("array ** non-literal")
+            if tb not in (F, I, B):
+                raise Unsupported("array ** array")
+            return "(vmaps_r N (npow N) %s %s)" % (a, self.coerce(b, tb, F)), V
         return "(npow N %s %s)" % (self.coerce(a, ta, F), self.coerce(b, tb, F)), F
 
     def index(self, n, env):
@@ -481,9 +538,14 @@ class FnTranslator:
                 e = "(fst %s)" % e
             e = "(fst %s)" % e if k == 0 else "(snd %s)" % e
             return e, t[k]
+        if isinstance(sl, ast.Slice) and sl.lower is not None and sl.upper is not None and sl.step is None and t in (V, VZ) \
+                and getattr(self, "in_slice_store", False):
+            # a[lo:hi] inside the right-hand side of a slice store `x[a:b] = E`: E is evaluated completely before the store and
+            # no name is bound to the slice, so the view is indistinguishable from a copy (also inside loops)
+            return "(zslice %s %s %s)" % (arr, self.index(sl.lower, env), self.index(sl.upper, env)), t
         if isinstance(sl, ast.Slice):
             if sl.lower is not None or sl.step is not None or sl.upper is None or t not in (V, VZ):
-                raise Unsupported("slice other than a[:n] of a 1-d array")
+                raise Unsupported("slice other than a[:n] of a 1-d array (a[lo:hi] only inside the right-hand side of a slice store)")
             if self.nest:
                 raise Unsupported("slice inside a loop / joining if")
             return "(zslice_to %s %s)" % (arr, self.index(sl.upper, env)), t
@@ -573,6 +635,14 @@ class FnTranslator:
             if t == V:
                 return arr, V
             raise Unsupported("ravel of " + str(t))
+        if name == "set":
+            # set(<int array>): only the membership test is available on the result, so the element list represents it
+            if len(n.args) != 1 or kw or "set" in env or "set" in self.module_fns or "set" in self.opaque:
+                raise Unsupported("set(...) other than set(<int array>)")
+            a, ta = self.expr(n.args[0], env)
+            if ta != VZ:
+                raise Unsupported("set of " + str(ta))
+            return a, SZ
         if name == "np.max" and len(n.args) == 1 and not kw:
             a, ta = self.expr(n.args[0], env)
             if ta != V:
@@ -589,6 +659,15 @@ class FnTranslator:
                 raise Unsupported("arguments of " + name)
             dt = kw.get("dtype") if len(n.args) == 1 else n.args[1]
             dts = dotted(dt) if dt is not None else "np.float64"
+            if isinstance(dt, ast.Attribute) and dt.attr == "dtype" and isinstance(dt.value, ast.Name) and dt.value.id in env:
+                # dtype=x.dtype: the dtype of the array variable x (float arrays V/M -> float, int arrays VZ/MZ -> int)
+                tx = env[dt.value.id]
+                if tx in (V, M):
+                    dts = "np.float64"
+                elif tx in (VZ, MZ):
+                    dts = "np.int64"
+                else:
+                    raise Unsupported("dtype of a non-array")
             kind, sh = self.shape_arg(n.args[0], env)
             if dts in ("np.int32", "np.int64", "np.intp", "np.int8", "np.uint8", "np.bool_"):
                 if kind != V:
@@ -705,12 +784,17 @@ class FnTranslator:
                 raise Unsupported("keyword call of " + name)
             if info.get("mutates"):
                 raise Unsupported("call of %s, which mutates its argument" % name)
-            if len(n.args) != len(info["args"]):
+            dfl = info.get("defaults", {})
+            if len(n.args) > len(info["args"]) or any(an not in dfl for an, _ in info["args"][len(n.args):]):
                 raise Unsupported("call of %s with defaults" % name)
             args = []
             for a, (an, at) in zip(n.args, info["args"]):
                 e, t = self.expr(a, env)
                 args.append(self.coerce(e, t, at))
+            for an, at in info["args"][len(n.args):]:
+                # omitted trailing argument: the callee's literal default, by its generated name src_default_<fn>_<arg>
+                dt = dfl[an][1]
+                args.append(self.coerce("(src_default_%s_%s N)" % (name, an) if dt == F else "src_default_%s_%s" % (name, an), dt, at))
             self.calls.add(name)
             if info["ext"]:
                 self.uses_ext = True
@@ -776,6 +860,8 @@ class FnTranslator:
         return "(Some %s)" % e if self.has_raise else e
 
     def note_ret(self, t):
+        if t == SZ or (isinstance(t, tuple) and SZ in t):
+            raise Unsupported("a set is returned")
         if getattr(self, "ret_type", None) is None:
             self.ret_type = t
         elif self.ret_type != t:
@@ -907,7 +993,13 @@ class FnTranslator:
                 raise Unsupported("store into unknown array")
             if arr in env.get("%views", ()):
                 raise Unsupported("store into %s, which is bound to a slice (numpy view)" % arr)
-            e, t = self.expr(value, env)
+            is_slice_store = isinstance(target.slice, ast.Slice)
+            if is_slice_store:
+                self.in_slice_store = True
+            try:
+                e, t = self.expr(value, env)
+            finally:
+                self.in_slice_store = False
             at = env[arr]
             if isinstance(target.slice, ast.Tuple):
                 if at != M or len(target.slice.elts) != 2:
@@ -915,7 +1007,10 @@ class FnTranslator:
                 i, j = (self.index(x, env) for x in target.slice.elts)
                 new = "(mset N %s %s %s %s)" % (self.var(arr), i, j, self.coerce(e, t, F))
             elif isinstance(target.slice, ast.Slice):
-                raise Unsupported("slice store")
+                ts = target.slice
+                if ts.lower is None or ts.upper is None or ts.step is not None or at != V or t != V:
+                    raise Unsupported("slice store other than x[a:b] = <1-d float array> into a 1-d float array")
+                new = "(zset_slice %s %s %s %s)" % (self.var(arr), self.index(ts.lower, env), self.index(ts.upper, env), e)
             else:
                 i = self.index(target.slice, env)
                 if at == V:
@@ -1234,8 +1329,33 @@ class FnTranslator:
         fn.args.args = [a for a in fn.args.args if a.arg not in fixed]
         return fn
 
+    def default_defs(self, fn, fixed):
+        """`sigs[fn]['defaults']`: the default values of the arguments as generated definitions src_<f>_default_<arg>"""
+        a = fn.args
+        out = []
+        for arg, dv in zip(a.args[len(a.args) - len(a.defaults):], a.defaults):
+            if arg.arg in fixed:
+                continue
+            v, neg = dv, False
+            if isinstance(v, ast.UnaryOp) and isinstance(v.op, ast.USub):
+                v, neg = v.operand, True
+            if not isinstance(v, ast.Constant) or (neg and isinstance(v.value, bool)):
+                raise Unsupported("default value of %s is not a literal" % arg.arg)
+            c = v.value
+            name = "src_%s_default_%s" % (fn.name, arg.arg)
+            if isinstance(c, bool):
+                out.append("Definition %s : bool := %s.\n" % (name, "true" if c else "false"))
+            elif isinstance(c, int):
+                out.append("Definition %s : Z := %s.\n" % (name, zlit(-c if neg else c)))
+            elif isinstance(c, float):
+                out.append("Definition %s (N : Num) : N := %s.\n" % (name, flit(-c if neg else c)))
+            else:
+                raise Unsupported("default value of %s is not a float / int / bool literal" % arg.arg)
+        return "".join(out)
+
     def translate(self):
         fixed = self.sig.get("fixed") or {}
+        defaults_txt = self.default_defs(self.fn, fixed) if self.sig.get("defaults") else ""
         if fixed:
             self.fn = self.specialise(self.fn, fixed)
             self.has_raise = contains(self.fn.body, ast.Raise)
@@ -1251,6 +1371,14 @@ class FnTranslator:
                 raise Unsupported("no type for argument " + arg.arg)
             env[arg.arg] = t
             params.append((arg.arg, t))
+        # literal defaults of trailing parameters (int / float constants only; anything else: the parameter has no default for callers)
+        self.defaults = {}
+        for arg, dv in zip(a.args[len(a.args) - len(a.defaults):], a.defaults):
+            if isinstance(dv, ast.Constant) and isinstance(dv.value, (int, float)) and not isinstance(dv.value, bool) and arg.arg not in fixed:
+                if isinstance(dv.value, int):
+                    self.defaults[arg.arg] = (zlit(dv.value), I)
+                else:
+                    self.defaults[arg.arg] = (flit(dv.value), F)
         self.ret_type = None
         # argument arrays the body stores into are part of the result (Python mutates the caller's array)
         stores = set()
@@ -1295,8 +1423,9 @@ class FnTranslator:
             fn.name, " (E : PyExt N)" if self.uses_ext else "", " (pinf : N)" if self.uses_pinf else "",
             "".join(" (%s : %s)" % (self.var(h), " -> ".join(coq_type(t) for t in tys + [r])) for h, (tys, r) in opq),
             " ".join("(%s : %s)" % (self.var(n), coq_type(t)) for n, t in params), coq_type(full))
-        return head + body + ".\n", {"args": params, "ret": rt, "ext": self.uses_ext, "mutates": self.mutated,
-                                      "fuel": self.has_fuel, "opaque": opq, "pinf": self.uses_pinf, "fixed": dict(fixed)}
+        return head + body + ".\n" + defaults_txt, {"args": params, "ret": rt, "ext": self.uses_ext, "mutates": self.mutated,
+                                      "fuel": self.has_fuel, "opaque": opq, "pinf": self.uses_pinf, "fixed": dict(fixed),
+                                      "defaults": {n: self.defaults[n] for n, _ in params if n in self.defaults}}
 
 
 COQ_RESERVED = {"at", "as", "in", "fun", "let", "match", "end", "with", "then", "else", "if", "return", "forall", "exists", "fix", "cofix",
@@ -1351,14 +1480,43 @@ def decorator_flags(fn):
     return out
 
 
-def translate_module(path, wanted, sigs=None, consts=None, modname="Src", const_names=None):
+def imported_functions(path, tree, imports):
+    """`imports` = {name: (python module, file)}: the FunctionDef of `name` in `file`, accepted only if the module being translated
+    (`tree`) binds `name` by a top-level `from <python module> import ..., name, ...` (no `as`) and binds it nowhere else at top level.
+    -> ({name: FunctionDef}, {name: error})"""
+    out, errs = {}, {}
+    for name, (pymod, file) in (imports or {}).items():
+        hits = [n for n in tree.body if isinstance(n, ast.ImportFrom) and n.level == 0 and n.module == pymod
+                and any(a.name == name and a.asname is None for a in n.names)]
+        other = [n for n in tree.body if (isinstance(n, (ast.FunctionDef, ast.ClassDef)) and n.name == name)
+                 or (isinstance(n, (ast.Import, ast.ImportFrom)) and n not in hits and any((a.asname or a.name) == name for a in n.names))
+                 or (isinstance(n, ast.Assign) and any(isinstance(t, ast.Name) and t.id == name for t in n.targets))]
+        if not hits or other:
+            errs[name] = "%s does not bind %s by `from %s import %s` only" % (path, name, pymod, name)
+            continue
+        ofns, _ = module_functions(file)
+        if name not in ofns:
+            errs[name] = "function not found in " + file
+            continue
+        out[name] = ofns[name]
+    return out, errs
+
+
+def translate_module(path, wanted, sigs=None, consts=None, modname="Src", const_names=None, imports=None):
     """-> (coq text, report dict name -> {'ok', 'error', 'sha', 'decorators'})
+    `imports`: {name: (python module, file)}: functions the module imports by `from <python module> import name` whose CURRENT text
+    is read from `file` and translated into this generated file like a function of the module itself (see imported_functions).
     `const_names`: module-level constants read from the source with module_consts; each literal one becomes a generated
     definition `src_const_<NAME>` (so that link theorems can be stated for whatever value the current source has) and
     every read of it in a function is that definition; a constant bound to +infinity becomes the argument `pinf`."""
     sigs = sigs or {}
-    fns, _ = module_functions(path)
+    fns, tree_ = module_functions(path)
     done, report, chunks = {}, {}, []
+    ifns, ierrs = imported_functions(path, tree_, imports)
+    origin = {}
+    for nm, f in ifns.items():
+        fns[nm] = f
+        origin[nm] = imports[nm][1]
     consts = dict(consts or {})
     if const_names:
         for nm, (txt, ty) in sorted(module_consts(path, set(const_names)).items()):
@@ -1371,6 +1529,9 @@ def translate_module(path, wanted, sigs=None, consts=None, modname="Src", const_
                 chunks.append("Definition src_const_%s : Z := %s.\n" % (nm, txt))
                 consts[nm] = ("src_const_%s" % nm, I)
     for name in wanted:
+        if name in ierrs:
+            report[name] = {"ok": False, "error": ierrs[name]}
+            continue
         if name not in fns:
             report[name] = {"ok": False, "error": "function not found in " + path}
             continue
@@ -1391,8 +1552,13 @@ def translate_module(path, wanted, sigs=None, consts=None, modname="Src", const_
                         "args": [(n, str(t)) for n, t in info["args"]], "fuel_flags": getattr(tr, "fuel_flags", []),
                         "fuel_bounded": info["fuel"], "opaque": [h for h, _ in info["opaque"]],
                         "pinf": info["pinf"], "fixed": info["fixed"]}
+        for an, (dtxt, dty) in info.get("defaults", {}).items():
+            if dty == F:
+                chunks.append("Definition src_default_%s_%s (N : Num) : N := %s.\n" % (name, an, dtxt))
+            else:
+                chunks.append("Definition src_default_%s_%s : Z := %s.\n" % (name, an, dtxt))
         spec = ("  specialised to " + ", ".join("%s=%s" % kv for kv in sorted(info["fixed"].items()))) if info["fixed"] else ""
-        chunks.append("(* %s:%d-%d  %s%s *)\n%s" % (path.split("/")[-1], fn.lineno, fn.end_lineno, " ".join(decorator_flags(fn)), spec, text))
+        chunks.append("(* %s:%d-%d  %s%s *)\n%s" % (origin.get(name, path).split("/")[-1], fn.lineno, fn.end_lineno, " ".join(decorator_flags(fn)), spec, text))
     header = ("(* GENERATED by harness/vp/py2coq.py from %s -- do not edit *)\n"
               "From Coq Require Import List ZArith Bool.\nFrom UV Require Import Num PyPrim.\nImport ListNotations.\n\n" % path)
     return header + "\n".join(chunks), report
